@@ -4,7 +4,7 @@
 //! revocation-completion rule (C05).
 
 use super::proto::*;
-use crate::engine::refmath::{ps_verify, u64_scalar};
+use crate::engine::refmath::{self, ps_verify, u64_scalar};
 use crate::engine::rng::{Pattern, ScriptedRng, Window};
 use crate::engine::wire::{self, Image, Kind};
 use crate::engine::{pick_idx, Fail, Rec, R};
@@ -264,6 +264,10 @@ pub struct Pay {
     pub faults_token: Vec<Fault>,
     pub rev_faults: Vec<RevFault>,
     pub stop: Option<PayStop>,
+    /// 0 = none; k > 0: the step's randomness is re-keyed (deterministically) until the revocation
+    /// pair drawn for the new state has index >= k (its first k candidate digests are non-canonical)
+    #[serde(default)]
+    pub idx_tune: u8,
 }
 
 #[derive(Clone, Copy, Debug, Serialize, Deserialize, Hash, PartialEq, Eq)]
@@ -285,6 +289,110 @@ pub struct Hist {
     pub est_stop: EstStop,
     pub pays: Vec<Pay>,
     pub seed: u64,
+    /// as `Pay::idx_tune`, for the revocation pair of the initial state
+    #[serde(default)]
+    pub idx_tune: u8,
+}
+
+/// Target revocation-pair indices: mostly untouched randomness; otherwise a minimum index spread over
+/// 1..=12 (index k occurs naturally with probability 0.45 * 0.55^k: 8 -> 0.4 %, 12 -> 0.03 %).
+fn idx_tune() -> impl Strategy<Value = u8> {
+    prop_oneof![
+        4 => Just(0u8),
+        1 => 1u8..=7,
+        2 => 8u8..=12,
+    ]
+}
+
+/// First index i such that SHA3-256(secret || i) is a canonical scalar (reference for RevocationPair::new).
+pub fn first_canonical_index(secret: &Scalar) -> Option<u8> {
+    for i in 0..=255u8 {
+        let d = refmath::sha3(&[&secret.to_bytes(), &[i]]);
+        if bool::from(Scalar::from_bytes(&d).is_some()) {
+            return Some(i);
+        }
+    }
+    None
+}
+
+/// Offset (in the byte stream of the caller's generator) of the 64-byte draw that becomes the
+/// revocation secret of the state created by `Requested::new` (which = 0) / `Ready::start` (which = 1).
+/// Found empirically: the operation is run once under a recording generator and the secret is read
+/// from the resulting state image; None if no draw maps to it (layout changed -> no tuning).
+fn rev_draw_offset(which: usize) -> Option<usize> {
+    use std::sync::OnceLock;
+    static OFF: OnceLock<[Option<usize>; 2]> = OnceLock::new();
+    OFF.get_or_init(|| {
+        let m = merchant(0);
+        let cid = channel_id(&m, 0x1dea);
+        let ctx = context(1);
+        let find = |img: &Image, log: &[(usize, usize)], seed: u64, prefer_last: bool| -> Option<usize> {
+            let secrets: Vec<Vec<u8>> = img.atoms.iter().enumerate().filter(|(_, a)| a.path.ends_with("secret") && a.len == 32).map(|(i, _)| img.at(i).to_vec()).collect();
+            let mut hits = Vec::new();
+            for (off, len) in log.iter().filter(|d| d.1 == 64) {
+                let mut base = crate::engine::rng::ScriptedRng::new(seed, vec![]);
+                let mut skip = vec![0u8; *off];
+                rand_core::RngCore::fill_bytes(&mut base, &mut skip);
+                let mut w = [0u8; 64];
+                rand_core::RngCore::fill_bytes(&mut base, &mut w);
+                let _ = len;
+                let sc = Scalar::from_bytes_wide(&w).to_bytes().to_vec();
+                if secrets.iter().any(|s| *s == sc) {
+                    hits.push(*off);
+                }
+            }
+            if prefer_last { hits.last().cloned() } else { hits.first().cloned() }
+        };
+        let mut r0 = crate::engine::rng::ScriptedRng::new(77, vec![]);
+        let (req, proof) = Requested::new(&mut r0, &m.cust, cid, mbal(5), cbal(9), &ctx);
+        let o0 = find(&Image::must(&req), &r0.log, 77, false);
+        // a Ready state to start a payment from
+        let o1 = (|| {
+            let (closing, vbs) = m.cfg.initialize(&mut rng(1), &cid, cbal(9), mbal(5), proof, &ctx)?;
+            let inactive = req.complete(closing, &m.cust).ok()?;
+            let token = m.cfg.activate(&mut rng(2), vbs);
+            let ready = inactive.activate(token, &m.cust).ok()?;
+            let old_secrets: Vec<Vec<u8>> = {
+                let img = Image::must(&ready);
+                img.atoms.iter().enumerate().filter(|(_, a)| a.path.ends_with("secret") && a.len == 32).map(|(i, _)| img.at(i).to_vec()).collect()
+            };
+            let mut r1 = crate::engine::rng::ScriptedRng::new(78, vec![]);
+            let (started, _) = ready.start(&mut r1, PaymentAmount::pay_merchant(1).ok()?, &ctx, &m.cust).ok()?;
+            let mut img = Image::must(&started);
+            // only the new state's secret: drop atoms equal to the old state's
+            let keep: Vec<usize> = img.atoms.iter().enumerate().filter(|(i, a)| a.path.ends_with("secret") && a.len == 32 && !old_secrets.contains(&img.at(*i).to_vec())).map(|(i, _)| i).collect();
+            let atoms: Vec<_> = keep.iter().map(|i| img.atoms[*i].clone()).collect();
+            img.atoms = atoms;
+            find(&img, &r1.log, 78, false)
+        })();
+        [o0, o1]
+    })[which]
+}
+
+/// Re-key `s` until the revocation secret drawn at `rev_draw_offset(which)` has first canonical index >= k.
+fn tune_seed(s: u64, which: usize, k: u8) -> u64 {
+    if k == 0 {
+        return s;
+    }
+    let Some(off) = rev_draw_offset(which) else { return s };
+    for j in 0u64..400_000 {
+        let c = s ^ j.wrapping_mul(0xD6E8_FEB8_6659_FD93);
+        let mut g = rng(c);
+        let mut skip = vec![0u8; off];
+        rand_core::RngCore::fill_bytes(&mut g, &mut skip);
+        let mut w = [0u8; 64];
+        rand_core::RngCore::fill_bytes(&mut g, &mut w);
+        let sec = Scalar::from_bytes_wide(&w);
+        if first_canonical_index(&sec).map(|i| i >= k).unwrap_or(false) {
+            return c;
+        }
+    }
+    s
+}
+
+/// Index byte(s) of the revocation secrets inside a state image (for the class histogram).
+fn rev_indices(img: &Image) -> Vec<u8> {
+    img.atoms.iter().enumerate().filter(|(_, a)| a.kind == Kind::U8 && a.path.ends_with("index")).map(|(i, _)| img.at(i)[0]).collect()
 }
 
 #[derive(Clone, Copy)]
@@ -307,8 +415,9 @@ pub fn hist(g: GenOpts) -> impl Strategy<Value = Hist> {
         } else {
             Just(None).boxed()
         },
+        idx_tune(),
     )
-        .prop_map(|(amount, faults_close, faults_token, rev_faults, stop)| Pay { amount, faults_close, faults_token, rev_faults, stop });
+        .prop_map(|(amount, faults_close, faults_token, rev_faults, stop, idx_tune)| Pay { amount, faults_close, faults_token, rev_faults, stop, idx_tune });
     (
         0..g.merchants.max(1),
         bal_sel(),
@@ -319,8 +428,9 @@ pub fn hist(g: GenOpts) -> impl Strategy<Value = Hist> {
         if g.stops { prop_oneof![10 => Just(EstStop::None), 1 => Just(EstStop::Inactive)].boxed() } else { Just(EstStop::None).boxed() },
         proptest::collection::vec(pay, 0..=g.max_pays),
         any::<u64>(),
+        idx_tune(),
     )
-        .prop_map(|(merchant, cb, mb, ctx, est_faults_close, est_faults_token, est_stop, pays, seed)| Hist {
+        .prop_map(|(merchant, cb, mb, ctx, est_faults_close, est_faults_token, est_stop, pays, seed, idx_tune)| Hist {
             merchant,
             cb,
             mb,
@@ -330,6 +440,7 @@ pub fn hist(g: GenOpts) -> impl Strategy<Value = Hist> {
             est_stop,
             pays,
             seed,
+            idx_tune,
         })
 }
 
@@ -664,8 +775,14 @@ pub fn run_hist(h: &Hist, o: Opts, w: &mut World, rec: &Rec) -> Result<Value, Fa
     let mut trace: Vec<String> = Vec::new();
 
     // ---------------------------------------------------------------- establish: Requested
-    let s = ch.next_seed();
+    let s = tune_seed(ch.next_seed(), 0, h.idx_tune);
     let (req, proof) = Requested::new(&mut rng(s), cfg, cid, mbal(ch.mb), cbal(ch.cb), &ch.ctx);
+    for i in rev_indices(&Image::must(&req)) {
+        rec.class(&format!("revocation-index/initial-state/{}", if i >= 8 { ">=8".to_string() } else { i.to_string() }));
+        if h.idx_tune > 0 && rev_draw_offset(0).is_some() {
+            ensure!(i >= h.idx_tune, "harness/index-tuning-missed", "initial revocation pair has index {} < tuned minimum {}", i, h.idx_tune);
+        }
+    }
     if o.twin {
         // Requested::new is a pure function of its inputs and randomness
         let (req2, proof2) = Requested::new(&mut rng(s), cfg, cid, mbal(ch.mb), cbal(ch.cb), &ch.ctx);
@@ -804,7 +921,7 @@ pub fn run_hist(h: &Hist, o: Opts, w: &mut World, rec: &Rec) -> Result<Value, Fa
             rec.class("payment-leaves-equal-balances");
         }
 
-        let s = ch.next_seed();
+        let s = tune_seed(ch.next_seed(), 1, p.idx_tune);
         let ready_bytes = wire::enc(&ready);
         let ready_img = Image::must(&ready);
         let twin_start = if o.twin {
@@ -846,7 +963,15 @@ pub fn run_hist(h: &Hist, o: Opts, w: &mut World, rec: &Rec) -> Result<Value, Fa
                 trace.push(format!("pay#{} {} refused", pi, p.amount.label()));
                 continue;
             }
-            Ok(x) => x,
+            Ok(x) => {
+                if let Some(i) = rev_indices(&Image::must(&x.0)).into_iter().max() {
+                    rec.class(&format!("revocation-index/payment-states(max)/{}", if i >= 8 { ">=8".to_string() } else { i.to_string() }));
+                    if p.idx_tune > 0 && rev_draw_offset(1).is_some() {
+                        ensure!(i >= p.idx_tune, "harness/index-tuning-missed", "revocation pair of the new state has index {} < tuned minimum {}", i, p.idx_tune);
+                    }
+                }
+                x
+            }
         };
         if !in_range {
             return Err(fail(&o, "out-of-range-payment-started", format!("start accepted amount {} on balances ({}, {}) although the result leaves [0, 2^63-1]", amt, ch.cb, ch.mb)));
